@@ -15,7 +15,7 @@ from props import common
 
 PROP = 'C11'
 FUNCS = ['Logic.appendWire', 'Wire.setSource', 'Wire.addSource', 'Wire.rename', 'Wire.reparent', 'Wire.reparentAndRename',
-         'Logic.__init__', 'Wire.__init__', 'OutPort.__init__', 'InPort.__init__', 'InOutPort.__init__']
+         'Logic.__init__', 'Wire.__init__', 'OutPort.__init__', 'InPort.__init__', 'InOutPort.__init__', 'Logic.addOut']
 DBG_FUNCS = ['checkPort', 'checkIntegrity']
 
 
@@ -231,7 +231,7 @@ def main(tier, seed, only=None):
                       assumptions=['heap model: objects are references, every attribute is a map from references (Dafny style), dicts are (membership, value) maps over (owner, key), strings are atoms',
                                    'callee contracts used at call sites: appendWire, setSource/addSource (proved here), getFullPath / isPrimitive / addSink (assumed side-effect free resp. touching only the sinks list)',
                                    'keyword defaults are not modelled: every argument is arbitrary',
-                                   'checkIntegrity: precondition "the source port of every wire is registered in its parent block\'s inPorts/outPorts" (what addOut / addIn establish; under it checkPort never raises) is assumed of the hierarchy, not proved of the construction API; the dict iteration order of children is a ghost key list; checkPortParent and the WARNING prints have no effect on the verdict (print is dropped); recursion is assumed to terminate (finite acyclic hierarchy)',
+                                   'checkIntegrity: precondition "the source port of every wire is registered in its parent block\'s inPorts/outPorts" (what addOut / addIn establish; under it checkPort never raises) is proved to be kept by Logic.addOut (the construction API for drivers); direct calls of Wire.setSource with an unregistered port are outside; the dict iteration order of children is a ghost key list; checkPortParent and the WARNING prints have no effect on the verdict (print is dropped); recursion is assumed to terminate (finite acyclic hierarchy)',
                                    common.dropped_note()],
                       bounded_parts=[{'what': 'second driver: every ordered pair of {Constant, Buf, Reg, BidirBuf pin} on one ordinary wire, widths 1 and 8: the second attachment raises, the first driver stays'},
                                      {'what': 'in addition to the heap proof of checkIntegrity: checkIntegrity on every library block of the composition registry (3 configurations each, inputs driven by constants), each with one single-fault variant (one input left undriven -> must raise) and one duplicated driver (must be refused, first driver kept)'},
